@@ -253,7 +253,8 @@ impl ChildLimit {
     if forward {
       term = term.next(2);
     }
-    let info: ChildLimitInfo = CHILD_LIMIT_PROVIDER.lock().unwrap().get_info(birth_time, term);
+    // 计算过程中的panic不应使全局的童限计算接口从此不可用
+    let info: ChildLimitInfo = CHILD_LIMIT_PROVIDER.lock().unwrap_or_else(|e| e.into_inner()).get_info(birth_time, term);
 
     Self {
       eight_char,
